@@ -18,6 +18,7 @@ import (
 	"strings"
 	"time"
 
+	"github.com/LemoFoundationLtd/lemochain-core/chain/account"
 	"github.com/LemoFoundationLtd/lemochain-core/chain/types"
 	"github.com/LemoFoundationLtd/lemochain-core/common"
 	"github.com/LemoFoundationLtd/lemochain-core/store"
@@ -93,7 +94,7 @@ func (s *sys) rmDirs() {
 	}
 }
 
-func account(a common.Address, v int) *types.AccountData {
+func mkAccount(a common.Address, v int) *types.AccountData {
 	return &types.AccountData{Address: a, Balance: big.NewInt(int64(v)), NewestRecords: map[types.ChangeLogType]types.VersionRecord{}}
 }
 
@@ -191,7 +192,7 @@ func (s *sys) writeInit(b *types.Block, sv []int) {
 	}
 	for i, x := range sv {
 		if x != 0 {
-			v.Put(account(s.addrs[i], x), b.Height())
+			v.Put(mkAccount(s.addrs[i], x), b.Height())
 		}
 	}
 }
@@ -322,7 +323,7 @@ func (s *sys) put(b, a int) engine.Fields {
 	blk := s.block(b)
 	v, err := s.db.GetActDatabase(blk.Hash())
 	if err == nil {
-		v.Put(account(s.addr(a), valBase*b+a), blk.Height())
+		v.Put(mkAccount(s.addr(a), valBase*b+a), blk.Height())
 	}
 	fl := engine.Fields{"err": errStr(err)}
 	s.observe(fl)
@@ -436,6 +437,7 @@ func driveRand(args []string) error {
 	table := fs.String("table", "wide", "")
 	hard := fs.Bool("hard", false, "new database directory and real reopen for every history")
 	pRestart := fs.Int("restart", 2, "percent of steps that really close and reopen the database")
+	viaAM := fs.Bool("am", false, "produce every block through account.Manager (GetAccount via the parent's view, SetBalance, Finalise, SetBlock, Save)")
 	if err := fs.Parse(args); err != nil {
 		return err
 	}
@@ -454,7 +456,7 @@ func driveRand(args []string) error {
 		s.rmDirs()
 	}()
 	lines, panics := 0, 0
-	emit := func(ev string, beh, step int, a []int, fl engine.Fields) error {
+	emit := func(ev string, beh, step int, a interface{}, fl engine.Fields) error {
 		fl["ev"], fl["beh"], fl["step"] = ev, beh, step
 		if a != nil {
 			fl["a"] = a
@@ -536,6 +538,41 @@ func driveRand(args []string) error {
 			default:
 				continue
 			}
+			if *viaAM && ev == "Put" {
+				continue // blocks are written by Manager.Save only
+			}
+			if *viaAM && ev == "AddBlock" {
+				// read set and write set of the new block (disjoint; the written accounts are read first, as a transaction does)
+				perm := rng.Perm(*naddr)
+				nwr, nrd := rng.Intn(*maxWrites+1), rng.Intn(3)
+				if nwr+nrd > *naddr {
+					nrd = *naddr - nwr
+				}
+				var wset, rset []int
+				for _, x := range perm[:nwr] {
+					wset = append(wset, x+1)
+				}
+				for _, x := range perm[nwr : nwr+nrd] {
+					rset = append(rset, x+1)
+				}
+				evs, pmsg := s.amBlock(a[0], rset, wset, rng)
+				for _, e := range evs {
+					if err := emit(e.ev, h, st, e.a, e.fl); err != nil {
+						return err
+					}
+				}
+				if pmsg != "" {
+					panics++
+					break
+				}
+				id := len(s.blocks) - 1
+				parent[id] = a[0]
+				for _, x := range wset {
+					written[[2]int{id, x}] = true
+				}
+				nw[id] = *maxWrites // a block is written once, by Save
+				continue
+			}
 			fl, pmsg := safe(func() engine.Fields { return s.do(ev, a) })
 			if pmsg != "" {
 				fl = engine.Fields{"panic": pmsg}
@@ -575,6 +612,81 @@ func driveRand(args []string) error {
 	}
 	fmt.Printf("{\"histories\": %d, \"lines\": %d, \"panics\": %d}\n", *hist, lines, panics)
 	return nil
+}
+
+type amEvent struct {
+	ev string
+	a  interface{}
+	fl engine.Fields
+}
+
+// amBlock produces block len(s.blocks) on parent p the way the node does (consensus/dpovp.go, chain/genesis.go):
+// an account.Manager based on the parent loads the accounts it touches THROUGH THE PARENT'S VIEW
+// (AccountTrieDB.Get, populating its cache), changes the balances of the write set, Finalise gives the version
+// root for the header, SetBlock, then Manager.Save(hash) puts the dirty accounts into the new block's view.
+// Events: Get(p, a) per loaded account, AddBlock(p), Save(b, writeSet).
+func (s *sys) amBlock(p int, rset, wset []int, rng *rand.Rand) (evs []amEvent, pmsg string) {
+	cur, curA := "Get", interface{}([]int{p, 0})
+	defer func() {
+		if r := recover(); r != nil {
+			if he, ok := r.(engine.HarnessError); ok {
+				panic(he)
+			}
+			pmsg = fmt.Sprintf("%v\n%s", r, debug.Stack())
+			if len(pmsg) > 1500 {
+				pmsg = pmsg[:1500]
+			}
+			evs = append(evs, amEvent{cur, curA, engine.Fields{"panic": pmsg}})
+		}
+	}()
+	s.dirty = true
+	pb := s.block(p)
+	id := len(s.blocks)
+	am := account.NewManager(pb.Hash(), s.db)
+	touch := append(append([]int{}, wset...), rset...)
+	rng.Shuffle(len(touch), func(i, j int) { touch[i], touch[j] = touch[j], touch[i] })
+	isW := map[int]bool{}
+	for _, a := range wset {
+		isW[a] = true
+	}
+	for _, a := range touch {
+		cur, curA = "Get", []int{p, a}
+		acc := am.GetAccount(s.addr(a))
+		val := -2
+		if bal := acc.GetBalance(); bal != nil {
+			val = int(bal.Int64())
+		}
+		if acc.GetAddress() != s.addr(a) {
+			val = -3
+		}
+		fl := engine.Fields{"val": val, "err": ""}
+		s.observe(fl)
+		evs = append(evs, amEvent{"Get", []int{p, a}, fl})
+		if isW[a] {
+			acc.SetBalance(big.NewInt(int64(valBase*id + a)))
+		}
+	}
+	cur, curA = "AddBlock", []int{p}
+	if err := am.Finalise(); err != nil {
+		engine.Failf("Finalise: %v", err)
+	}
+	b := &types.Block{Header: &types.Header{ParentHash: pb.Hash(), Height: pb.Height() + 1, VersionRoot: am.GetVersionRoot(),
+		Time: uint32(id), Extra: fmt.Sprintf("b%d", id)}}
+	s.blocks = append(s.blocks, b)
+	s.ids[b.Hash()] = id
+	err := s.db.SetBlock(b.Hash(), b)
+	fl := engine.Fields{"id": id, "err": errStr(err)}
+	s.observe(fl)
+	evs = append(evs, amEvent{"AddBlock", []int{p}, fl})
+	sorted := append([]int{}, wset...)
+	sort.Ints(sorted)
+	cur, curA = "Save", []interface{}{id, sorted}
+	err = am.Save(b.Hash())
+	fl = engine.Fields{"err": errStr(err)}
+	s.observe(fl)
+	evs = append(evs, amEvent{"Save", []interface{}{id, sorted}, fl})
+	s.dirty = false
+	return evs, ""
 }
 
 func safe(f func() engine.Fields) (fl engine.Fields, pmsg string) {
